@@ -64,6 +64,20 @@ Section Model.
                 g_dec := dec |} in
     Ok {| pg_desc := g; pg_grid := map (fun v => pg_grid_set N (round_nearest g v)) arr |}.
 
+  (* delta=None: delta = np.mean(np.diff(grid)), read left to right (numpy sums
+     pairwise: on doubles the last bits may differ -- the float correspondence
+     therefore passes numpy's own mean as delta0 to pg_make; this definition is
+     the exact-arithmetic reading) *)
+  Fixpoint diffs (l : list T) : list T :=
+    match l with
+    | x :: ((y :: _) as r) => nsub N y x :: diffs r
+    | _ => []
+    end.
+  Definition mean_diff (arr : list T) : T :=
+    pg_delta_auto N (ndiv N (nsum N (diffs arr)) (ofZ N (zlen (diffs arr)))).
+  Definition pg_make_auto (dec : Z) (arr : list T) : res pgrid :=
+    pg_make (mean_diff arr) dec arr.
+
   (* add_extra_lower_and_upper_bin: _lower_bound is assigned directly (not
      through the rounding setter), the grid through the rounding setter.  An
      empty grid would read uninitialised memory: Err. *)
